@@ -597,6 +597,33 @@ class Seq:
             return True
         return False
 
+    def _other_sides_fail(self, push_bb, header):
+        """every decision between the loop header and the push has, on its other sides, only failure: no success exit of the
+        function and no further iteration is reachable from them (`match f(x) { Ok(v) => out.push(v), Err(_) => return Err(..) }`
+        is `out.push(f(x)?)` with its own error).  Failure-following reachability (DESIGN 3.18)."""
+        from .guards import reach_tracking_failures, outcomes
+        fn, pv = self.fn, self.pv
+        body = self._loops[header]
+        oks = {o["bb"] for o in outcomes(fn, pv) if o["kind"] in ("ok", "value", "call", "some")}
+        chain = fn.cfg.dom_chain(push_bb)
+        for i in range(len(chain) - 1):
+            child, d = chain[i], chain[i + 1]
+            if d == header or d not in body:
+                break
+            t = fn.blocks[d]["term"]
+            if t["k"] != "switch":
+                continue
+            subj = pv.operand_term(t["op"], d, "term")
+            if subj[0] == "discr" and (is_call(subj[1], TRY_BRANCH) or is_call(subj[1], ITER_NEXT)):
+                continue
+            for s2 in set(fn.cfg.succ[d]):
+                if s2 == child or fn.cfg.dominates(s2, push_bb):
+                    continue
+                seen = reach_tracking_failures(fn, s2, {push_bb})
+                if seen & oks or header in seen:
+                    return False
+        return True
+
     def _loop_push(self, header, push_bb, v):
         """contribution of `push(v)` executed in loop `header`: map(F, S) if the loop advances one iterator over S once per
         iteration and pushes exactly once per iteration"""
@@ -608,7 +635,7 @@ class Seq:
         nbb, nt = nexts[0]
         if not fn.cfg.dominates(nbb, push_bb):
             return unknown("push not dominated by the iterator step")
-        if self._conditional(push_bb, header, header):
+        if self._conditional(push_bb, header, header) and not self._other_sides_fail(push_bb, header):
             return unknown("push under a condition inside the loop")
         # the back edge must be reachable only through the push (exactly once per iteration)
         latches = [p for p in fn.cfg.pred[header] if p in body]
